@@ -12,6 +12,17 @@ from fractions import Fraction
 import vflib
 from vflib import Check
 
+MANIFEST = dict(
+    text="Machine-checked proof (Lean 4) that the value_t/balance_t/amount_t dispatch preserves the exact rational denotation of "
+         "every operand for + - * / neg and that ==/< decide the order of exact quantities (24 theorems, all operands, no size bound); "
+         "the dispatch cells are re-extracted from value.cc on every run (C03.cells_pinned, Gen.Consts flags) and the model is run "
+         "against the rebuilt binary on every ordered type pair x operator plus random trees; an independent Fraction oracle on "
+         "ledger's own answers supplies the failing input when a proof or the tie breaks.",
+    note="Modelled, not verified: GMP is exact; long cells on Int (no overflow); INTEGER/INTEGER is C long division by design. "
+         "Known findings (known_findings.json): INTEGER/AMOUNT operand swap (pinned by a unit test), zero components kept by balance +=.",
+    technique="Lean 4 proof of denotation homomorphism + regenerated dispatch table + differential model/binary check",
+    ref="DESIGN.md §5 C03")
+
 COMMS = {"EUR": 2, "USD": 4, "XAU": 0, "BTC": 8, "PQ": 20}
 WARM = 'eval "0.00 EUR + 0.0000 USD + 0 XAU + 0.00000000 BTC + 0.00000000000000000000 PQ"'
 ENV = ",".join("%s=%d" % kv for kv in COMMS.items())
